@@ -3,6 +3,7 @@
 An oracle generates case lines (scripts), and judge() decides from the implementation's answer line
 whether the PROPERTY ITSELF fails on that input. judge returns None (holds) or (tag, detail):
 tag names a known deviation class (looked up in known_findings.json) or is None."""
+import difflib
 import json
 import random
 import xml.parsers.expat
@@ -395,6 +396,55 @@ def strip_flags(dump):
     return ";".join(out)
 
 
+def only_reordered(dump_a, dump_b, names):
+    """the two dumps hold the same lines and differ only in the order of lines of the (leaf-)lists named in names"""
+    la, lb = dump_a.split(";"), dump_b.split(";")
+    if sorted(la) != sorted(lb):
+        return False
+    for x, y in zip(la, lb):
+        if x != y:
+            for z in (x, y):
+                p = z.split(":")
+                if len(p) < 3 or p[2] not in names:
+                    return False
+    return True
+
+
+def subtree_names(n):
+    out = {n.name}
+    if n.kind in ("container", "list"):
+        for c in n.children:
+            out |= subtree_names(c)
+    elif n.kind == "choice":
+        for _, ns in n.cases:
+            for c in ns:
+                out |= subtree_names(c)
+    return out
+
+
+def dupinst_names(m):
+    """names of the key-less lists / state leaf-lists (libyang: duplicate-instance lists, matched by position) of module m
+    and of all nodes below them"""
+    out = set()
+    for n in m.all_nodes():
+        if (n.kind == "list" and not n.keys) or (n.kind == "leaf-list" and not n.config):
+            out |= subtree_names(n)
+    return out
+
+
+def confined_to(dump_a, dump_b, names):
+    """every line in which the two dumps differ (as multisets or in order) belongs to a node named in names"""
+    la, lb = dump_a.split(";"), dump_b.split(";")
+    for op, i1, i2, j1, j2 in difflib.SequenceMatcher(None, la, lb, autojunk=False).get_opcodes():
+        if op == "equal":
+            continue
+        for z in la[i1:i2] + lb[j1:j2]:
+            p = z.split(":")
+            if len(p) < 3 or p[2] not in names:
+                return False
+    return True
+
+
 def schema_has(m, pred):
     return any(pred(n) for n in m.all_nodes())
 
@@ -440,38 +490,57 @@ class Diff(Oracle):
                 s.dump(1, 0)                               # +8
             # purity
             s.dump(0); s.dump(1)                           # 25 26
+            uo = schema_has(m, lambda n: getattr(n, "userord", False) or (n.kind in ("list", "leaf-list") and not n.config))
+            di = schema_has(m, lambda n: (n.kind == "list" and not n.keys) or (n.kind == "leaf-list" and not n.config))
+            nop = lambda: s.dump(31)                       # placeholder keeping the result indices fixed
+            s.add("diff", "t0", "t1", DIFF_DEFAULTS, "t2") # 27
             # reverse (defaults diff)
-            s.add("diff", "t0", "t1", DIFF_DEFAULTS, "t2")
-            s.add("rev", "t2", "t7")
-            s.add("dup", "t1", "t8", DUPF)
-            s.add("apply", "t8", "t7")                     # 30
-            s.add("cmp", "t8", "t0", CMPX)                 # 31
-            # merge
-            s.add("diff", "t1", "t9", DIFF_DEFAULTS, "t10")
-            s.add("dup", "t2", "t11", DUPF)
-            s.add("dmerge", "t11", "t10", 0)               # 34
-            s.add("dup", "t0", "t12", DUPF)
-            s.add("apply", "t12", "t11")                   # 36
-            s.add("cmp", "t12", "t9", CMPX)                # 37
-            # merge undo
-            s.add("diff", "t1", "t0", DIFF_DEFAULTS, "t13")
-            s.add("dup", "t2", "t14", DUPF)
-            s.add("dmerge", "t14", "t13", 0)               # 40
-            s.add("dup", "t0", "t15", DUPF)
-            s.add("apply", "t15", "t14")                   # 42
-            s.add("cmp", "t15", "t0", CMPX)                # 43
+            if "reverse" in self.parts:
+                s.add("rev", "t2", "t7")
+                s.add("dup", "t1", "t8", DUPF)
+                s.add("apply", "t8", "t7")                 # 30
+                s.add("cmp", "t8", "t0", CMPX)             # 31
+            else:
+                for _ in range(4):
+                    nop()
+            # merge and merge undo: claimed (and supported by lyd_diff_merge_*) for non user-ordered, keyed data only
+            if "reverse" in self.parts and not (uo or di):
+                s.add("diff", "t1", "t9", DIFF_DEFAULTS, "t10")
+                s.add("dup", "t2", "t11", DUPF)
+                s.add("dmerge", "t11", "t10", 0)           # 34
+                s.add("dup", "t0", "t12", DUPF)
+                s.add("apply", "t12", "t11")               # 36
+                s.add("cmp", "t12", "t9", CMPX)            # 37
+                s.add("diff", "t1", "t0", DIFF_DEFAULTS, "t13")
+                s.add("dup", "t2", "t14", DUPF)
+                s.add("dmerge", "t14", "t13", 0)           # 40
+                s.add("dup", "t0", "t15", DUPF)
+                s.add("apply", "t15", "t14")               # 42
+                s.add("cmp", "t15", "t0", CMPX)            # 43
+            else:
+                for _ in range(12):
+                    nop()
             # self-contained: print the diff, free A and B, parse it back, apply to a copy of A
             s.add("dup", "t0", "t16", DUPF)
-            s.add("rt", "t2", "t5", "b", PRINT_SIBLINGS, PARSE_ONLY, 0, "c0")   # 45
+            s.add("rt", "t2", "t5", "b", PRINT_SIBLINGS, PARSE_ONLY, 0, "c0")   # 45 (LYB keeps default flags of the diff nodes)
             s.add("dup", "t1", "t17", DUPF)
             s.add("free", "t0"); s.add("free", "t1"); s.add("free", "t2")
             s.add("apply", "t16", "t5")                    # 50
             s.add("cmp", "t16", "t17", CMPX)               # 51
             L.append(s.line())
             # libyang treats every config-false (leaf-)list as user-ordered
-            uo = schema_has(m, lambda n: getattr(n, "userord", False) or (n.kind in ("list", "leaf-list") and not n.config))
-            di = schema_has(m, lambda n: (n.kind == "list" and not n.keys) or (n.kind == "leaf-list" and not n.config))
-            self.info[L[-1]] = (uo, di)
+            ue = set()        # names of user-ordered leaf-lists that hold an instance with the empty value in A, B or C
+            bq = False        # a key of a user-ordered list instance holds both quote characters
+            for forest in (a, b, c):
+                for n, _, _ in yanggen.walk(forest):
+                    sc = n.schema
+                    if sc.kind == "leaf-list" and (sc.userord or not sc.config) and n.value == "":
+                        ue.add(sc.name)
+                    if sc.kind == "list" and (sc.userord or not sc.config):
+                        for ch in getattr(n, "children", []):
+                            if ch.schema.name in (sc.keys or []) and "'" in str(ch.value) and '"' in str(ch.value):
+                                bq = True
+            self.info[L[-1]] = (uo, di, ue, bq, dupinst_names(m) if di else set())
         return L
 
     def judge(self, line, out):
@@ -480,17 +549,32 @@ class Diff(Oracle):
         r = results(out)
         if r[1] != "0" or rc(r[2]) != 0 or rc(r[3]) != 0 or rc(r[4]) != 0:
             return None
-        uo, di = self.info.get(line, (False, False))
+        uo, di, ue, bq, dn = self.info.get(line, (False, False, set(), False, set()))
         a0, b0 = r[5], r[6]
+        fwd = self._judge_forward(r, a0, b0, uo, di, ue, bq, dn)
+        if fwd:
+            # a failure of the forward laws is a C06 matter: the reverse-only oracles (C13) cannot judge such a case
+            return fwd if "forward" in self.parts else None
+        return self._judge_reverse(r, uo, di)
+
+    def _judge_forward(self, r, a0, b0, uo, di, ue=(), bq=False, dn=()):
         k = 7
         for opts in (DIFF_DEFAULTS, 0):
             what = "diff options=%d" % opts
             if r[k] != "0":
-                return (None, "lyd_diff_siblings(A,B) failed: %s (%s)" % (r[k], what))
+                return ("uord-key-both-quotes" if (bq and rc(r[k]) == 7) else None,
+                        "lyd_diff_siblings(A,B) failed: %s (%s)" % (r[k], what))
             if r[k + 1] != "0" or r[k + 2] != "empty":
                 return (None, "diff(A,A) is not empty (%s)" % what)
             if not r[k + 4].startswith("0"):
-                return (None, "apply(diff(A,B),A) failed: %s (%s)" % (r[k + 4], what))
+                t = None
+                if di and r[k + 4].startswith("3~failed-to-find-node-instance-in-data"):
+                    t = "dupinst-position"
+                elif di and uo and r[k + 4].startswith("6~node-without-an-operation"):
+                    t = "uord-move-nested-dupinst"
+                elif ue and r[k + 4].startswith("3~failed-to-find"):
+                    t = "uord-empty-anchor"
+                return (t, "apply(diff(A,B),A) failed: %s (%s)" % (r[k + 4], what))
             if "!" in r[k + 4]:
                 return ("diff-apply-first-sibling" if uo else None, "lyd_diff_apply_all left *data not at the first sibling")
             if opts and r[k + 5] != "ok":
@@ -511,18 +595,28 @@ class Diff(Oracle):
                 if di and r[k + 7].replace(":ds", ":s") == r[k + 8].replace(":ds", ":s"):
                     return ("dupinst-dflt-flag", "instances of a key-less list / state leaf-list that differ only in default flags "
                             "are matched as equal by the diff")
+                if ue and confined_to(r[k + 7], r[k + 8], ue):
+                    return ("uord-empty-anchor", "instances of a user-ordered leaf-list that holds the empty value end up "
+                            "different (order / presence): " + ",".join(sorted(ue)))
+                if dn and confined_to(r[k + 7], r[k + 8], dn):
+                    return ("dupinst-position", "instances of key-less lists / state leaf-lists (matched by position) end up "
+                            "different after apply")
                 return (None, "apply(diff(A,B),A) != B (%s)" % what)
             k += 9
         if r[25] != a0 or r[26] != b0:
             return (None, "diff/apply modified its inputs")
-        if "forward" in self.parts:
+        if "forward" in self.parts and not r[45].startswith("P6"):
+            # (P6: the LYB printer gave up on colliding sibling hashes - finding lyb-hash-collision of C01, not a diff matter)
             if rc(r[45]) != 0 or not r[50].startswith("0") or r[51] != "0":
                 return (None, "printed/parsed diff applied after freeing A,B does not give B: rt=%s apply=%s cmp=%s" % (r[45], r[50], r[51]))
+        return None
+
+    def _judge_reverse(self, r, uo, di):
         if "reverse" not in self.parts:
             return None
         # reverse
         if r[28] != "0":
-            return (None, "lyd_diff_reverse_all failed: " + r[28])
+            return ("dupinst-reverse" if di else None, "lyd_diff_reverse_all failed: " + r[28])
         if not r[30].startswith("0") or "!" in r[30] or r[31] != "0":
             tag = "uord-reverse" if uo else ("dupinst-reverse" if di else None)
             return (tag, "apply(reverse(diff(A,B)),B) != A: apply=%s cmp=%s" % (r[30], r[31]))
